@@ -256,7 +256,9 @@ class EmuLink:
         self.dead = False
         self.writes = []     # raw write commands that were executed
         self.block_writes = []   # (block number, data, wb, we)
+        self.calls = []      # callback invocations: "r<bn>:<rb>:<re>" / "w<bn>:<wb>:<we>"
         self.frames = []     # (command, response)
+        self.sent_cmds = []  # every command frame handed to process_command
         tgt = nfc.clf.LocalTarget("212F", sensf_res=bytearray(b"\x01" + IDM + PMM + b"\x12\xFC"),
                                   tt3_cmd=bytearray(b"\x00\x12\xFC\x00\x00"))
         self.emu = nfc.tag.tt3.Type3TagEmulation(self, tgt)
@@ -264,10 +266,12 @@ class EmuLink:
         self.emu.add_service(0x000B, self._read, lambda: False)
 
     def _read(self, block_number, rb, re):
+        self.calls.append("r%d:%d:%d" % (block_number, rb, re))
         if block_number < len(self.store) / 16:
             return self.store[block_number * 16:(block_number + 1) * 16]
 
     def _write(self, block_number, block_data, wb, we):
+        self.calls.append("w%d:%d:%d" % (block_number, wb, we))
         if block_number < len(self.store) / 16:
             self.store[block_number * 16:(block_number + 1) * 16] = block_data
             self.block_writes.append((block_number, bytes(block_data), wb, we))
@@ -283,6 +287,7 @@ class EmuLink:
         if len(cmd) > 1 and cmd[1] == 0x08 and self.cut is not None and len(self.writes) >= self.cut:
             self.dead = True
             raise nfc.clf.TimeoutError
+        self.sent_cmds.append(bytes(cmd))
         rsp = self.emu.process_command(bytearray(cmd))
         self.frames.append((bytes(cmd), None if rsp is None else bytes(rsp)))
         if len(cmd) > 1 and cmd[1] == 0x08:
